@@ -5,6 +5,7 @@ import (
 	"go/ast"
 	"go/token"
 	"go/types"
+	"sort"
 	"strings"
 
 	"jetverif/an"
@@ -198,6 +199,43 @@ func runC07(c *an.Ctx) {
 			}
 		}
 	}
+	// a variable declared by the header of an if or range (`if x := …`, `range k, v := …`) lives in a scope
+	// of that very construct: the innermost scope open at the declaration was pushed by the same arm (or
+	// by the same helper method), not by an earlier statement of the enclosing list
+	nHeader := 0
+	var hdrFns []*an.Fn
+	for f := range results {
+		hdrFns = append(hdrFns, f)
+	}
+	sort.Slice(hdrFns, func(i, j int) bool { return hdrFns[i].Name < hdrFns[j].Name })
+	for _, f := range hdrFns {
+		r := results[f]
+		for n, pushes := range r.callPush {
+			kind := branchHeaderDecl(p, f, n, declarers)
+			if kind == "" {
+				continue
+			}
+			nHeader++
+			key := f.Name + "/header-scope:" + kind
+			bad := ""
+			for pos := range pushes {
+				if !pos.IsValid() {
+					bad = "no scope pushed by this function is open"
+					break
+				}
+				if !sameConstruct(f, pos, n.Pos()) {
+					bad = "the innermost open scope was pushed at " + p.RelPos(pos) + ", by another statement of the list"
+					break
+				}
+			}
+			if bad != "" {
+				c.Bad("C07.decl", key, n.Pos(), nil, "the header variable of an %s statement is declared into a scope that does not belong to the statement (%s): it stays visible after {{end}} and overwrites a variable of the enclosing body with the same name", kind, bad)
+			} else {
+				c.OK("C07.decl", key, n.Pos(), "the header variable of the %s statement is declared into a scope pushed by the statement itself", kind)
+			}
+		}
+	}
+	c.Expect("C07.decl", "header declarations of if/range statements", nHeader, 3)
 	c.Expect("C07.scope", "newScope sites", nPush, 7)
 	c.Expect("C07.scope", "releaseScope sites (incl. deferred)", nPop, 7)
 	c.Expect("C07.decl", "variable stores through the runtime", nDecl, 6)
@@ -439,4 +477,62 @@ func keys(m map[string]bool) []string {
 		out = append(out, k)
 	}
 	return out
+}
+
+// branchHeaderDecl: n is a declaration made for the header of an if or range statement — a call of a
+// declaring helper, or a direct store into the variables map, whose operands mention X.Set with X an
+// *IfNode or *RangeNode.  Returns "if", "range" or "".
+func branchHeaderDecl(p *an.Prog, f *an.Fn, n ast.Node, declarers map[*an.Fn][]token.Pos) string {
+	info := f.Info()
+	switch v := n.(type) {
+	case *ast.CallExpr:
+		g := p.FnByObj[an.Callee(info, v)]
+		if g == nil || declarers[g] == nil {
+			return ""
+		}
+	case *ast.IndexExpr:
+	default:
+		return ""
+	}
+	kind := ""
+	ast.Inspect(n, func(m ast.Node) bool {
+		sel, ok := m.(*ast.SelectorExpr)
+		if !ok || sel.Sel.Name != "Set" {
+			return true
+		}
+		if tv, ok := info.Types[sel.X]; ok && tv.Type != nil {
+			switch an.TypeName(tv.Type) {
+			case "*jet.IfNode":
+				kind = "if"
+			case "*jet.RangeNode":
+				kind = "range"
+			}
+		}
+		return true
+	})
+	return kind
+}
+
+// sameConstruct: positions a and b lie in the same function and, when that function dispatches on node
+// types with a switch, in the same case clause of it.
+func sameConstruct(f *an.Fn, a, b token.Pos) bool {
+	p := f.P
+	fa, fb := p.OwnerFn(a), p.OwnerFn(b)
+	if fa == nil || fb == nil || fa != fb {
+		return false
+	}
+	clause := func(pos token.Pos) *ast.CaseClause {
+		var best *ast.CaseClause
+		ast.Inspect(fa.Body, func(n ast.Node) bool {
+			if n == nil || pos < n.Pos() || pos >= n.End() {
+				return n == nil || false
+			}
+			if cc, ok := n.(*ast.CaseClause); ok {
+				best = cc
+			}
+			return true
+		})
+		return best
+	}
+	return clause(a) == clause(b)
 }
